@@ -64,6 +64,9 @@ pub fn run(ctx: &Ctx) -> usize {
 
 /// Re-runs one saved case. Err = still failing.
 pub fn replay(ctx: &Ctx, kind: &str, params: &Value) -> Result<(), Fail> {
+	if kind == "fuzz" {
+		return fuzz_one(params["target"].as_str().unwrap_or(""), &crate::rt::unhex(params["input"].as_str().unwrap_or("")));
+	}
 	match ctx.prop.as_str() {
 		"C01" => c01::case(ctx, kind, params, false),
 		"C02" => c02::case(ctx, kind, params, false),
